@@ -81,5 +81,6 @@ def run(chk, db):
         'Integer layer: Match evaluated on all 256 prefix bytes for each of the nine integer encoders and compared with the documented '
         'class labels; class->payload type from the resolved ReadAs<> arguments on every path; fixint decode evaluated for all 192 '
         'embedded bytes. Container layer: symbolic paths of every ReadPayload instance compared with the documented validation guards '
-        'and error categories of its type constructor; the guards must dominate every element read.')
+        'and error categories of its type constructor; the guards must dominate every element read.'
+        ' Wrapper decoders use the documented components (CO); Match of every container kind accepts exactly its documented prefix on all 256 bytes (PK); Ensure of buffer/bounded readers exact and overflow-safe, stream reader primitives (ReadLimitReached / StreamError category).')
     chk.assumptions = ['check order is not constrained (the property compares categories on single-defect inputs only)']
